@@ -127,7 +127,7 @@ def pick_files(rng, n):
         k = rng.random()
         if k < 0.45:
             f = rng.choice(["a1.out", "dwz-partial2-1", "dwz-partial3-1", "twocus", "dwz-partial",
-                            "dwz-partial4-1.o", "k1.o", "k2.o", "three.a", "two.a"])
+                            "dwz-partial4-1.o", "k1.o", "k2.o", "three.a", "two.a", "loclists.o"])
         elif k < 0.55:
             # the deliberately odd samples
             f = rng.choice(["haschildren_childless", "empty", "inconsistent-types", "duplicate-const",
